@@ -2,8 +2,11 @@
 
 Tie: the REAL adapters (replicat.backends.s3c.S3Compatible, replicat.backends.s3.S3) are driven through every adapter
 call (upload, upload_stream, download, download_stream, exists, delete, list_files with prefixes / continuation tokens /
-several pages, retried calls) against a fake endpoint mounted as httpx.MockTransport; every request is captured as httpx
-emits it (method, raw request target, raw headers, drained body).
+several pages, retried calls) against a fake endpoint mounted as an httpx transport that reads the request body part by part,
+the way a connection does; every request is captured as httpx emits it (method, raw request target, raw headers, the body
+parts received).  Attempts are ended by fault plans: error statuses AND transport-level failures (connect / read / write /
+protocol / timeout errors, i.e. httpx.TransportError) striking before the body, after k parts of it, after its last part or
+after its end — every attempt of the retried call is captured and judged, the retries in particular.
 
 * direct oracle  = harness/ref/sigv4_verify.py (independent implementation of the published algorithm, hashlib/hmac only)
   recomputes the signature FROM THE WIRE and checks the declared payload hash / content length against the body sent;
@@ -11,8 +14,10 @@ emits it (method, raw request target, raw headers, drained body).
   the Host header and the complete Authorization header (hence canonical request, string to sign, key chain, signature);
   the Lean *reference* (`sigv4.ref`, the definition the theorems compare the client with) must agree with the independent
   verifier's canonical request and signature on the real wire; the payload model (`sigv4.payload`) must predict digest
-  input, declared length and body; the encoders of the model are compared with the real urllib / httpx functions on all
-  256 bytes and on random strings.
+  input, declared length and body; the retry model (`sigv4.retry`: stream position carried from attempt to attempt, rewound or
+  not per fault class as the generated `try` statement says) must predict what the service received of EVERY attempt of a
+  faulted streamed upload; the encoders of the model are compared with the real urllib / httpx functions on all 256 bytes and
+  on random strings.
 """
 import hashlib
 import json
@@ -217,6 +222,44 @@ def gen_data(r, big_ok):
     return r.randbytes(r.randint(10_000, 70_000))
 
 
+TRANSPORT_EXC = ['ReadError', 'WriteError', 'ConnectError', 'ReadTimeout', 'WriteTimeout', 'ConnectTimeout', 'RemoteProtocolError',
+                 'CloseError', 'PoolTimeout']
+BEFORE_BODY_ONLY = ('ConnectError', 'ConnectTimeout', 'PoolTimeout')     # nothing of the request is sent before these
+
+
+def n_parts(call):
+    """number of parts the body iterator of this call yields"""
+    if call['call'] == 'upload_stream':
+        L, c = len(call['data']), call.get('chunk_size', 128_000)
+        return -(-L // c)
+    return 1          # httpx sends bytes / no content as a single part
+
+
+def gen_faults(r, call):
+    """A fault plan: 1–3 failing attempts (backoff gives up after 4 tries), each an error status or a transport-level failure,
+    each striking after 0 … all parts of the body (None = after the end of the body was seen)."""
+    n = r.choices([1, 2, 3], [55, 30, 15])[0]
+    parts = n_parts(call)
+    out = []
+    for _ in range(n):
+        def point():
+            cands = [None, None, 0, 1, parts, parts + 1]
+            if parts >= 2:
+                cands += [r.randint(1, parts - 1), r.randint(1, parts - 1), parts - 1]
+            return r.choice(cands)
+        if r.random() < 0.4:
+            out.append({'kind': 'status', 'status': r.choice([500, 503, 429, 502, 408]), 'pulled': None if r.random() < 0.7 else point()})
+        else:
+            exc = r.choice(TRANSPORT_EXC)
+            out.append({'kind': 'transport', 'exc': exc, 'pulled': 0 if exc in BEFORE_BODY_ONLY else point()})
+    return out
+
+
+def fault_point(f, parts):
+    k = f.get('pulled')
+    return 'after-end-of-body' if (k is None or k > parts) else 'before-body' if k == 0 else 'after-last-part' if k == parts else 'mid-body'
+
+
 def gen_case(r, idx, quick, force=None):
     """One adapter call with its configuration and clock."""
     cfg = gen_cfg(r)
@@ -238,9 +281,14 @@ def gen_case(r, idx, quick, force=None):
                 call['chunk_size'] = r.choice([1, 7, 64, 4096, 128_000]) if len(call['data']) < 5000 else r.choice([4096, 65_536, 128_000])
         if kind in ('download', 'download_stream'):
             call['get_body'] = r.randbytes(r.choice([0, 1, 100, 5000]))
-    if r.random() < 0.06:
-        call['fail_first'] = r.choice([1, 2, 3])
-        call['fail_status'] = r.choice([500, 503, 429])
+    # every call is retried by backoff; the streamed upload is the one whose retries depend on state (the stream) — weight it
+    if r.random() < (0.45 if kind == 'upload_stream' else 0.08):
+        if kind == 'upload_stream' and r.random() < 0.6:
+            # several parts, so that "mid-body" exists
+            L = len(call['data'])
+            if L >= 2:
+                call['chunk_size'] = max(1, L // r.choice([2, 3, 5, 8]) + r.choice([0, 0, 1])) if L > 64 else r.choice([1, 2, 3])
+        call['faults'] = gen_faults(r, call)
     start, step, ccls = gen_clock(r)
     return cfg, call, (start, step, ccls)
 
@@ -312,8 +360,12 @@ def model_requests(cfg, call, reqs, clock_log):
 
 
 def page_of_request(call, j):
-    """page index served by request j (the fake fails the first `fail_first` requests)."""
-    return max(0, j - call.get('fail_first', 0))
+    """page index served by request j (the fake fails the first `n_faults` requests)."""
+    return max(0, j - n_faults(call))
+
+
+def n_faults(call):
+    return len(s3_capture.normalise_faults(call))
 
 
 def classify(v, client_cr, mdl, cfg, call):
@@ -352,7 +404,7 @@ def classify(v, client_cr, mdl, cfg, call):
     return list(dict.fromkeys(sigs))
 
 
-def evaluate(out, cfg, call, clk, reqs, res, mrep, refrep, payrep):
+def evaluate(out, cfg, call, clk, reqs, res, mrep, refrep, payrep, retryrep=None):
     """Direct oracle + correspondence for one executed call."""
     kind = call['call']
     start, step, ccls = clk
@@ -360,15 +412,25 @@ def evaluate(out, cfg, call, clk, reqs, res, mrep, refrep, payrep):
     replay = {'kind': 'request', 'cfg': {k: v for k, v in cfg.items()}, 'call': {k: (v.hex() if isinstance(v, bytes) else v) for k, v in call.items()},
               'clock': {'start': start.isoformat(), 'step': step}}
     client_crs = res.get('client_crs') or []
+    plan = s3_capture.normalise_faults(call)
+    parts = n_parts(call) if 'name' in call else 1
     if 'error' in res:
         out.count('call_error:' + res['error'].split(':')[0])
-        if call.get('fail_first', 0) < 4 and not res['error'].startswith('UnicodeEncodeError'):
+        if n_faults(call) < 4 and not res['error'].startswith('UnicodeEncodeError'):
             out.disagreement('adapter call raised on a generated case', {'replay': replay, 'error': res['error']})
     if not reqs and 'error' not in res:
         out.disagreement('adapter call sent no request', {'replay': replay})
     for j, rq in enumerate(reqs):
-        v = sigv4_verify.verify(rq.method, rq.target, rq.headers, rq.body, secrets=secrets, region=cfg['region'], service='s3', server_now=rq.server_now)
+        v = sigv4_verify.verify(rq.method, rq.target, rq.headers, rq.body, secrets=secrets, region=cfg['region'], service='s3', server_now=rq.server_now,
+                                body_complete=rq.complete)
         out.evaluations += 1
+        # what led to this request: the first attempt, or a retry after a failure of some class at some point of the body
+        prev = plan[j - 1] if 0 < j <= len(plan) else None
+        ctx = 'first attempt' if prev is None else (
+            f"retry after {'HTTP ' + str(prev['status']) if prev['kind'] == 'status' else 'httpx.' + prev['exc']} ({fault_point(prev, parts)})")
+        if prev is not None:
+            out.count(f"request_after:{prev['kind']}-fault:{fault_point(prev, parts)}" + (':streamed-upload' if kind == 'upload_stream' else ''))
+        out.count('attempt:' + ('body-received-in-full' if rq.complete else 'broken-before-end-of-body'))
         m = mrep[j] if mrep is not None else None
         tie_ok = None
         if m is not None:
@@ -419,18 +481,51 @@ def evaluate(out, cfg, call, clk, reqs, res, mrep, refrep, payrep):
         # ---- direct oracle
         if not v.ok:
             ccr = client_crs[j] if len(client_crs) == len(reqs) else (bytes.fromhex(m['canonical_request']).decode('utf-8') if (m and tie_ok) else None)
-            what = (f'{rq.method} {rq.target.decode("latin-1")} (Host: {(rq.header("host") or ["?"])[0]}) is rejected by the independent SigV4 verifier: '
-                    f'{", ".join(v.problems)}')
+            what = (f'{rq.method} {rq.target.decode("latin-1")} (Host: {(rq.header("host") or ["?"])[0]}; request {j} of the call, {ctx}) is rejected by the '
+                    f'independent SigV4 verifier: {", ".join(v.problems)}'
+                    + (f' [content-length {(rq.header("content-length") or ["-"])[0]}, {len(rq.body)} body bytes sent]' if kind in ('upload', 'upload_stream') else ''))
             for sig in classify(v, ccr, m, cfg, call):
                 out.count('rejected:' + sig)
                 out.violation(sig, what, dict(replay, request_index=j, wire=rq.as_dict(), verifier=v.as_dict(), client_canonical_request=ccr))
         # ---- payload: body sent = payload handed over
         if kind in ('upload', 'upload_stream'):
-            if rq.body != call['data']:
-                out.violation('s3:body-differs-from-payload', f'{kind}: {len(rq.body)} body bytes sent for a {len(call["data"])}-byte payload (request {j})',
-                              dict(replay, request_index=j))
+            if rq.complete and rq.body != call['data']:
+                out.count('rejected:s3:body-differs-from-payload')
+                out.violation('s3:body-differs-from-payload', f'{kind}: {len(rq.body)} body bytes sent for a {len(call["data"])}-byte payload (request {j}, {ctx})',
+                              dict(replay, request_index=j, wire=rq.as_dict()))
+            elif not rq.complete and not call['data'].startswith(rq.body):
+                out.count('rejected:s3:body-differs-from-payload')
+                out.violation('s3:body-differs-from-payload', f'{kind}: the {len(rq.body)} body bytes received before the connection broke are not the first bytes '
+                              f'of the {len(call["data"])}-byte payload (request {j}, {ctx})', dict(replay, request_index=j, wire=rq.as_dict()))
+            # ---- retry model: what the service received of every attempt, declared digest and length
+            if retryrep is not None:
+                if 'error' in retryrep:
+                    if j == 0:
+                        out.disagreement('driver error (sigv4.retry)', {'replay': replay, 'reply': retryrep})
+                elif j >= len(retryrep['attempts']):
+                    out.disagreement('retry model predicts fewer attempts than were observed', {'replay': replay, 'request_index': j, 'model_attempts': len(retryrep['attempts'])})
+                else:
+                    a = retryrep['attempts'][j]
+                    declared = (rq.header('x-amz-content-sha256') or [''])[0]
+                    cl = (rq.header('content-length') or [None])[0]
+                    diffs = []
+                    if bytes.fromhex(a['sent']) != rq.body:
+                        diffs.append('bytes received by the service')
+                    if hashlib.sha256(bytes.fromhex(a['digest_of'])).hexdigest() != declared:
+                        diffs.append('declared digest')
+                    if str(a['length']) != cl:
+                        diffs.append('declared length')
+                    if rq.complete and bytes.fromhex(a['body']) != rq.body:
+                        diffs.append('complete body')
+                    if diffs:
+                        out.disagreement('retry model differs from implementation on: ' + ', '.join(diffs),
+                                         {'replay': replay, 'request_index': j, 'model_sent_len': len(a['sent']) // 2, 'impl_sent_len': len(rq.body),
+                                          'model_rewinds': {k: retryrep.get(k) for k in ('rewind_on_status', 'rewind_on_transport', 'rewind_to')}})
+                    else:
+                        out.traces_validated += 1
             p = payrep
-            if p is not None and 'error' not in p:
+            # the single-attempt payload model speaks about the first attempt; later attempts are the retry model's (above)
+            if p is not None and 'error' not in p and rq.complete and (j == 0 or not plan):
                 digest_model = hashlib.sha256(bytes.fromhex(p['digest_of'])).hexdigest()
                 declared = (rq.header('x-amz-content-sha256') or [''])[0]
                 cl = (rq.header('content-length') or [None])[0]
@@ -443,7 +538,7 @@ def evaluate(out, cfg, call, clk, reqs, res, mrep, refrep, payrep):
         elif rq.body:
             out.violation('s3:unexpected-body', f'{kind} sent a {len(rq.body)}-byte body', dict(replay, request_index=j))
     # ---- results of the call (sanity of the capture, not part of the property)
-    expect_n = call.get('fail_first', 0) + (1 + len(call.get('tokens', [])) if kind == 'list_files' else 1)
+    expect_n = n_faults(call) + (1 + len(call.get('tokens', [])) if kind == 'list_files' else 1)
     if 'error' not in res and len(reqs) != expect_n:
         out.disagreement(f'{kind}: {len(reqs)} requests observed, {expect_n} expected', {'replay': replay})
 
@@ -451,7 +546,7 @@ def evaluate(out, cfg, call, clk, reqs, res, mrep, refrep, payrep):
 def nontrivial(cfg, call):
     texts = [call.get('name', ''), call.get('prefix', '')] + list(call.get('tokens', []))
     enc = any(any(not (c.isascii() and (c.isalnum() or c in '-._~/')) for c in t) for t in texts)
-    return enc or len(call.get('tokens', [])) >= 2 or len(call.get('data', b'')) > 128_000 or bool(call.get('fail_first'))
+    return enc or len(call.get('tokens', [])) >= 2 or len(call.get('data', b'')) > 128_000 or n_faults(call) > 0
 
 
 def case_summary(cfg, call, clk):
@@ -580,7 +675,7 @@ def execute(out, drv, cases, label):
         batch = cases[i:i + B]
         clocks = [s3_capture.Clock(start, step) for _, _, (start, step, _) in batch]
         results = s3_capture.run_calls([(cfg, call, ck) for (cfg, call, _), ck in zip(batch, clocks)])
-        sign_reqs, ref_reqs, pay_reqs, spans = [], [], [], []
+        sign_reqs, ref_reqs, pay_reqs, retry_reqs, spans = [], [], [], [], []
         for (cfg, call, clk), ck, (reqs, res) in zip(batch, clocks, results):
             ms = model_requests(cfg, call, reqs, ck.log)
             rs = []
@@ -600,16 +695,26 @@ def execute(out, drv, cases, label):
             elif call['call'] == 'upload_stream' and len(call['data']) <= 100_000:
                 p = {'op': 'sigv4.payload', 'kind': 'stream', 'data': call['data'].hex(), 'pos': 0, 'length': len(call['data']),
                      'chunk': call.get('chunk_size', 128_000)}
-            spans.append((len(sign_reqs), len(ms), len(pay_reqs) if p else None))
+            rt = None
+            plan = s3_capture.normalise_faults(call)
+            if call['call'] == 'upload_stream' and plan and len(call['data']) <= 20_000:
+                # the fault plan in the model's terms: class and number of parts pulled (None = up to and including the read that hits EOF)
+                np_ = n_parts(call)
+                rt = {'op': 'sigv4.retry', 'data': call['data'].hex(), 'pos': 0, 'length': len(call['data']), 'chunk': call.get('chunk_size', 128_000),
+                      'faults': [[0 if f['kind'] == 'status' else 1, np_ + 1 if f.get('pulled') is None else f['pulled']] for f in plan]}
+            spans.append((len(sign_reqs), len(ms), len(pay_reqs) if p else None, len(retry_reqs) if rt else None))
             sign_reqs += ms
             ref_reqs += rs
             if p:
                 pay_reqs.append(p)
+            if rt:
+                retry_reqs.append(rt)
         if drv is not None:
             sign_rep = ask_safely(drv, sign_reqs)
             ref_rep = ask_safely(drv, ref_reqs)
             pay_rep = ask_safely(drv, pay_reqs)
-        for (cfg, call, clk), (reqs, res), (s0, n, pi) in zip(batch, results, spans):
+            retry_rep = ask_safely(drv, retry_reqs)
+        for (cfg, call, clk), (reqs, res), (s0, n, pi, ri) in zip(batch, results, spans):
             nt = nontrivial(cfg, call)
             out.case(case_summary(cfg, call, clk), nt)
             out.evaluations -= 1          # evaluations are counted per request in evaluate()
@@ -628,13 +733,25 @@ def execute(out, drv, cases, label):
             if 'data' in call:
                 L = len(call['data'])
                 out.count('payload:' + ('0' if L == 0 else '1' if L == 1 else '<=4096' if L <= 4096 else '<=128000' if L <= 128_000 else '>128000'))
-            if call.get('fail_first'):
+            plan = s3_capture.normalise_faults(call)
+            if plan:
                 out.count('retried_calls')
+                out.count('retried_calls:' + kind)
+                out.count('faults_per_call:%d' % len(plan))
+                np_ = n_parts(call) if 'name' in call else 1
+                for f in plan:
+                    out.count('fault:' + (f'status:{f["status"]}' if f['kind'] == 'status' else 'transport:' + f['exc']))
+                    out.count(f'fault_point:{f["kind"]}:{fault_point(f, np_)}')
+                if kind == 'upload_stream':
+                    out.count('streamed_upload_body_parts:' + ('0' if np_ == 0 else '1' if np_ == 1 else '2-9' if np_ < 10 else '>=10'))
+                    if any(f['kind'] == 'transport' and fault_point(f, np_) in ('mid-body', 'after-last-part', 'after-end-of-body') for f in plan):
+                        out.count('streamed_upload_retried_after_transport_fault_with_body_consumed')
             out.count('requests', len(reqs))
             evaluate(out, cfg, call, clk, reqs, res,
                      sign_rep[s0:s0 + n] if drv is not None else None,
                      ref_rep[s0:s0 + n] if drv is not None else None,
-                     pay_rep[pi] if (drv is not None and pi is not None) else None)
+                     pay_rep[pi] if (drv is not None and pi is not None) else None,
+                     retry_rep[ri] if (drv is not None and ri is not None) else None)
     out.count('cases:' + label, len(cases))
 
 
@@ -660,7 +777,9 @@ def stream_position_probe(out, drv):
 
 def run(out, drv, info):
     quick = out.tier == 'quick'
-    out.rule = ('case = one adapter call (upload, upload_stream, download, download_stream, exists, delete, list_files with 1–5 pages, optionally retried) × '
+    out.rule = ('case = one adapter call (upload, upload_stream, download, download_stream, exists, delete, list_files with 1–5 pages) × fault plan (none, or 1–3 failing '
+                'attempts: error status or transport-level failure — connect / read / write / protocol / timeout — striking before the body, after k of its parts, '
+                'after its last part or after its end; 45 % of the streamed uploads, 8 % of the other calls) × '
                 'configuration (S3 / S3-compatible, scheme, host, region, bucket, credentials) × patched clock (midnight, year boundary, leap day, '
                 'single-digit fields, random; advancing between requests); names / prefixes / tokens from replicat-shaped, plain, printable-special, '
                 'non-ASCII, mixed, structural (slashes, percent, dots) and dot-segment classes, plus a systematic sweep of every byte 0x20–0x7E and '
@@ -670,7 +789,8 @@ def run(out, drv, info):
     out.assumptions = ['hmac / sha256 are parameters of every theorem (ideal, arbitrary functions); their executable model is validated against hashlib here',
                        'httpx (URL normalisation, Host header, header transmission) and urllib.parse are modelled, not verified; validated by the differential runs',
                        'the independent verifier (harness/ref/sigv4_verify.py) is trusted; it is checked on every run against the four published AWS examples',
-                       'upload_stream: the stream is handed over at position 0 (all callers in replicat do; every backend rewinds to 0 on retry)',
+                       'upload_stream: the stream is handed over at position 0 (all callers in replicat do; that every attempt starts from 0 again is proved from the generated try statement and explored by the fault plans)',
+                       'the fake connection takes a request body to be the parts its iterator yields (it does not cut it at the declared length); an attempt whose iterator was not exhausted is judged as a prefix',
                        'S3 form-decodes the query string (“+” = space); the literal reading of “+” is evaluated as well and also rejects']
     out.extra['verifier_selftest_vectors'] = verifier_selftest()
     r = rng_for(out.seed, 'C16')
@@ -696,6 +816,24 @@ def run(out, drv, info):
         (dict(cfg0, scheme='https', host='example.com:443', host_class='case-or-default-port'), {'call': 'download', 'name': 'a', 'name_class': 'plain'}, t),
         (dict(cfg0), {'call': 'upload', 'name': 'x y~ü/%41+&=?#', 'name_class': 'mixed', 'data': b'hello'}, t),
         (dict(cfg0), {'call': 'upload_stream', 'name': 'big', 'name_class': 'plain', 'data': bytes(range(256)) * 2600, 'chunk_size': 65_536, 'fail_first': 2, 'fail_status': 503}, t),
+        # retried calls: error statuses and transport-level failures before / inside / after the body
+        (dict(cfg0), {'call': 'upload_stream', 'name': 'r1', 'name_class': 'plain', 'data': bytes(range(256)) * 40, 'chunk_size': 1024,
+                      'faults': [{'kind': 'transport', 'exc': 'ReadError', 'pulled': 1}]}, t),
+        (dict(cfg0), {'call': 'upload_stream', 'name': 'r2', 'name_class': 'plain', 'data': bytes(range(256)) * 40, 'chunk_size': 4096,
+                      'faults': [{'kind': 'transport', 'exc': 'WriteError', 'pulled': 2}, {'kind': 'status', 'status': 503, 'pulled': None},
+                                 {'kind': 'transport', 'exc': 'ReadTimeout', 'pulled': None}]}, t),
+        (dict(cfg0), {'call': 'upload_stream', 'name': 'r3', 'name_class': 'plain', 'data': b'abc', 'chunk_size': 128_000,
+                      'faults': [{'kind': 'transport', 'exc': 'ConnectError', 'pulled': 0}, {'kind': 'transport', 'exc': 'RemoteProtocolError', 'pulled': 1}]}, t),
+        (dict(cfg0), {'call': 'upload_stream', 'name': 'r4', 'name_class': 'plain', 'data': b'', 'chunk_size': 7,
+                      'faults': [{'kind': 'transport', 'exc': 'ReadError', 'pulled': None}]}, t),
+        (dict(cfg0), {'call': 'upload_stream', 'name': 'r5', 'name_class': 'plain', 'data': b'0123456789', 'chunk_size': 3,
+                      'faults': [{'kind': 'status', 'status': 500, 'pulled': 2}, {'kind': 'transport', 'exc': 'WriteTimeout', 'pulled': 3}]}, t),
+        (dict(cfg0), {'call': 'upload', 'name': 'r6', 'name_class': 'plain', 'data': b'hello world',
+                      'faults': [{'kind': 'transport', 'exc': 'ReadError', 'pulled': None}, {'kind': 'transport', 'exc': 'ConnectTimeout', 'pulled': 0}]}, t),
+        (dict(cfg0), {'call': 'download', 'name': 'r7', 'name_class': 'plain', 'get_body': b'xyz',
+                      'faults': [{'kind': 'transport', 'exc': 'ReadError', 'pulled': None}]}, t),
+        (dict(cfg0), {'call': 'list_files', 'prefix': 'data/', 'prefix_class': 'replicat', 'tokens': ['tok1'], 'token_classes': ['plain'], 'keys': ['k1', 'k2'],
+                      'faults': [{'kind': 'transport', 'exc': 'ConnectError', 'pulled': 0}, {'kind': 'status', 'status': 503, 'pulled': None}]}, t),
         (dict(cfg0, backend='s3', region='eu-west-1', scheme='https', host='s3.eu-west-1.amazonaws.com', host_class='aws'),
          {'call': 'list_files', 'prefix': 'snapshots/', 'prefix_class': 'replicat', 'tokens': ['1ueGcxLPRx1Tr/XYExHnhbYLgveDs2J/wm36Hy4vbOwM='], 'token_classes': ['base64'], 'keys': ['a']}, t),
     ]
@@ -765,9 +903,10 @@ def replay(path, drv):
     bad = 0
     for j, rq in enumerate(reqs):
         v = sigv4_verify.verify(rq.method, rq.target, rq.headers, rq.body, secrets={cfg['key_id']: cfg['access_key']}, region=cfg['region'],
-                                server_now=rq.server_now)
-        body_ok = call['call'] not in ('upload', 'upload_stream') or rq.body == call['data']
-        print(f'request {j}: {rq.method} {rq.target.decode("latin-1")} Host={rq.header("host")} verifier_ok={v.ok} problems={v.problems} body_ok={body_ok}')
+                                server_now=rq.server_now, body_complete=rq.complete)
+        body_ok = (call['call'] not in ('upload', 'upload_stream') or (rq.body == call['data'] if rq.complete else call['data'].startswith(rq.body)))
+        print(f'request {j}: {rq.method} {rq.target.decode("latin-1")} Host={rq.header("host")} verifier_ok={v.ok} problems={v.problems} body_ok={body_ok} '
+              f'content-length={rq.header("content-length")} body_bytes_received={len(rq.body)} body_complete={rq.complete} ended_by={rq.fault}')
         if not v.ok:
             print('  verifier canonical request:\n    ' + (v.canonical_request or '').replace('\n', '\n    '))
             crs = res.get('client_crs') or []
